@@ -708,6 +708,9 @@ func (ex *Exec) specCall(env *Env, e *ECall) *Value {
 			cs = append(cs, tb.Eq(tb.Select(s.C[0], ex.add(base, kk)), tb.Select(p.C[0], ex.add(p.C[1], kk))))
 		}
 		return ex.boolV(tb.And(cs...))
+	case "streq":
+		x, y := arg(0), arg(1)
+		return ex.boolV(ex.strEq(x.C[0], x.C[1], x.C[2], y.C[0], y.C[1], y.C[2]))
 	case "substr":
 		// substr(r, s): r is a view into s
 		r, s := arg(0), arg(1)
